@@ -349,3 +349,23 @@ impl VMergeRepo {
 }
 #[verifier::external_body]
 pub fn vsnapshot_trees(snapshots: &Vec<SnapshotFile>) -> (r: Vec<TreeId>) ensures r@.len() == snapshots@.len(), { unimplemented!() }
+
+// ---- prune: removal of the old index files BEFORE the new index exists ----
+pub struct PruneOptionsW { pub early_delete_index: bool, pub instant_delete: bool }
+pub struct PrunePlanW { pub _opaque: u64 }
+// prune_plan.index_files.iter().map(|index| index.id).collect()
+#[verifier::external_body]
+pub fn vindexes_to_remove(plan: &PrunePlanW) -> Vec<Id> { unimplemented!() }
+impl VRepoR3 {
+    #[verifier::external_body]
+    pub fn vprogress_counter(&self) -> ProgressR { unimplemented!() }
+}
+impl VPruneBe {
+    // removing the old index files EARLY leaves the repository without index until the new one is written.  PRECONDITION:
+    // the user asked for exactly the documented-unsafe combination instant-delete + early-delete-index (the property excludes
+    // it); any other option set must keep the order "new index first"
+    #[verifier::external_body]
+    pub fn vdelete_index_files_early(&self, ids: &Vec<Id>, p: ProgressR, Ghost(opts): Ghost<PruneOptionsW>) -> (r: RusticResult<()>)
+        requires opts.early_delete_index && opts.instant_delete,
+    { unimplemented!() }
+}
